@@ -629,6 +629,8 @@ func readOnlyForeign(name string, i int) bool {
 		return true
 	case name == "(*math/big.Int).SetBytes":
 		return true
+	case (name == "(*bytes.Buffer).Write" || name == "(*strings.Builder).Write" || name == "(*bytes.Buffer).WriteString" || name == "(*strings.Builder).WriteString") && i == 1:
+		return true // io.Writer contract: the bytes written are copied into the buffer, p is neither modified nor retained
 	case strings.HasPrefix(name, "fmt.") && !strings.HasPrefix(name, "fmt.Append") && !strings.HasPrefix(name, "fmt.Sscan") && !strings.HasPrefix(name, "fmt.Fscan"):
 		return true
 	case strings.HasPrefix(name, "encoding/binary.") && (strings.HasSuffix(name, ".Uint16") || strings.HasSuffix(name, ".Uint32") || strings.HasSuffix(name, ".Uint64") || strings.HasSuffix(name, "Uvarint") && !strings.Contains(name, "Put") || strings.HasSuffix(name, ".Varint")):
